@@ -558,15 +558,10 @@ func normHnd(t *T) *T {
 			neg := &T{Op: "call", Name: imm.Name, Args: []*T{negImm(imm.Args[0])}}
 			return &T{Op: "call", Name: "Value.opAdd", Args: []*T{t.Args[0], neg}, Obj: t.Obj}
 		}
-	case "Value.Get", "Value.Set":
-		if len(t.Args) >= 2 && t.Args[1].Op == "call" && len(t.Args[1].Args) == 1 && isImmCtor(t.Args[1].Name) {
-			n := *t
-			n.str = ""
-			n.Args = append([]*T(nil), t.Args...)
-			n.Args[1] = &T{Op: "call", Name: "key", Args: []*T{stripIntConv(n.Args[1].Args[0])}}
-			return &n
-		}
 	}
+	// (An earlier normalisation identified Int(k) and newUntypedInt(k) as container keys.  That
+	// is false for |k| >= 2^31 — Int truncates to 32 bits — and hid a real disagreement between
+	// FASTGETINT/FASTSETINT and PUSH+GET/SET on uint32/float64-keyed maps; it was removed.)
 	if isImmCtor(t.Name) && len(t.Args) == 1 {
 		// constructors see the integer value only
 		n := *t
